@@ -800,6 +800,7 @@ impl IndexManager {
             ) {
                 Ok(()) => match std::fs::rename(&temp_path, path) {
                     Ok(()) => {
+                        #[cfg(feature = "verif-hooks")] crate::verif_hooks::crash_point("index.save.after_rename", None);
                         debug!(
                             "Saved index {:02x} with {} sorted + {} update entries (attempt {})",
                             id,
@@ -819,6 +820,7 @@ impl IndexManager {
             }
 
             let _ = std::fs::remove_file(&temp_path);
+            #[cfg(feature = "verif-hooks")] crate::verif_hooks::crash_point("index.save.after_remove_temp", None);
         }
 
         Err(StorageError::Index(format!(
@@ -843,32 +845,38 @@ impl IndexManager {
     ) -> Result<()> {
         let file = File::create(path)
             .map_err(|e| StorageError::Index(format!("Failed to create temp index: {e}")))?;
+        #[cfg(feature = "verif-hooks")] crate::verif_hooks::crash_point("index.write.after_create", Some(path));
         let mut writer = BufWriter::new(&file);
 
         // 1. Header guarded block (8 bytes)
         writer
             .write_le(header_block)
             .map_err(|e| StorageError::Index(format!("Failed to write header block: {e}")))?;
+        #[cfg(feature = "verif-hooks")] crate::verif_hooks::crash_point("index.write.after_header_block", Some(path));
 
         // 2. IndexHeaderV2 data
         writer
             .write_all(header_data)
             .map_err(|e| StorageError::Index(format!("Failed to write header data: {e}")))?;
+        #[cfg(feature = "verif-hooks")] crate::verif_hooks::crash_point("index.write.after_header_data", Some(path));
 
         // 3. 8 bytes of padding (matches what load_index skips)
         writer
             .write_all(&[0u8; 8])
             .map_err(|e| StorageError::Index(format!("Failed to write padding: {e}")))?;
+        #[cfg(feature = "verif-hooks")] crate::verif_hooks::crash_point("index.write.after_padding", Some(path));
 
         // 4. Entry guarded block (8 bytes)
         writer
             .write_le(entry_block)
             .map_err(|e| StorageError::Index(format!("Failed to write entry block: {e}")))?;
+        #[cfg(feature = "verif-hooks")] crate::verif_hooks::crash_point("index.write.after_entry_block", Some(path));
 
         // 5. Entry data (sorted section)
         writer
             .write_all(entry_data)
             .map_err(|e| StorageError::Index(format!("Failed to write entries: {e}")))?;
+        #[cfg(feature = "verif-hooks")] crate::verif_hooks::crash_point("index.write.after_entries", Some(path));
 
         // 6. Update section (64KB-aligned after sorted section)
         if let Some(update_bytes) = update_data {
@@ -881,17 +889,21 @@ impl IndexManager {
                     StorageError::Index(format!("Failed to write alignment padding: {e}"))
                 })?;
             }
+            #[cfg(feature = "verif-hooks")] crate::verif_hooks::crash_point("index.write.after_update_padding", Some(path));
             writer
                 .write_all(update_bytes)
                 .map_err(|e| StorageError::Index(format!("Failed to write update section: {e}")))?;
+            #[cfg(feature = "verif-hooks")] crate::verif_hooks::crash_point("index.write.after_update_section", Some(path));
         }
 
         writer
             .flush()
             .map_err(|e| StorageError::Index(format!("Failed to flush: {e}")))?;
+        #[cfg(feature = "verif-hooks")] crate::verif_hooks::crash_point("index.write.after_flush", Some(path));
 
         file.sync_all()
             .map_err(|e| StorageError::Index(format!("Failed to fsync: {e}")))?;
+        #[cfg(feature = "verif-hooks")] crate::verif_hooks::crash_point("index.write.after_sync", None);
 
         Ok(())
     }
